@@ -248,22 +248,35 @@ FinishClauses(pre, ev) ==
                         /\ seg[2] = pre.tsteps - seg[1] /\ pre.cstep = pre.tsteps
                         /\ BusyPins = {} /\ pre.locked = <<>> /\ Lk(pre) = {}
                         /\ seg[3] = seg[2],
+    \* whatever the restart point: the moves completed in this lifetime are exactly those that were left
+    F_Count     |-> (pre.tsteps >= seg[1]) => (seg[2] = pre.tsteps - seg[1] /\ ev.st.cstep = pre.tsteps),
     F_Unchanged |-> ev.st.slot = pre.slot /\ ev.st.lock = pre.lock /\ ev.st.cstep = pre.cstep ]
 
+(* Restart: the event carries the record the new process found on disk (ev.rec) *)
 RestartClauses(ev) ==
-  LET st == ev.st IN
-  [ R_HasRecord |-> lastRec.ok,
-    R_Restore   |-> lastRec.ok =>
-                     /\ st.slot = lastRec.active /\ st.cstep = lastRec.cstep /\ st.trajnum = lastRec.trajnum
+  LET st == ev.st
+      rec == ev.rec
+  IN
+  [ R_HasRecord |-> rec.ok,
+    R_Restore   |-> rec.ok =>
+                     /\ st.slot = rec.active /\ st.cstep = rec.cstep /\ st.trajnum = rec.trajnum
                      /\ Lk(st) = {} /\ st.locked = <<>>,
     R_Weights   |-> \A e \in Ens : st.slot[e+1] \in DOMAIN wOf => st.w[e+1] = wOf[st.slot[e+1]],
-    R_Frac      |-> lastRec.ok => \A e \in Ens :
+    R_Frac      |-> rec.ok => \A e \in Ens :
                        LET p == st.slot[e+1] IN
-                       /\ HasKey(ev.frac, p) /\ HasKey(lastRec.frac, p)
-                       /\ Close(Lookup(ev.frac, p), Lookup(lastRec.frac, p), 1),
-    R_Sorted    |-> \A e \in Ens : (lastRec.ok /\ ~\E k \in 1..Len(lastRec.locked) : e \in SeqSet(lastRec.locked[k][1]))
+                       /\ HasKey(ev.frac, p) /\ HasKey(rec.frac, p)
+                       /\ Close(Lookup(ev.frac, p), Lookup(rec.frac, p), 1),
+    R_Sorted    |-> \A e \in Ens : (rec.ok /\ ~\E k \in 1..Len(rec.locked) : e \in SeqSet(rec.locked[k][1]))
                                       => st.w[e+1][e+1] > 0,
-    R_Continues |-> lastRec.ok => st.cstep = lastRec.cstep ]
+    R_Distinct  |-> \A e \in Ens : \A f \in Ens : e # f => st.slot[e+1] # st.slot[f+1],
+    R_Numbers   |-> \A e \in Ens : st.slot[e+1] < st.trajnum,
+    \* a process that stopped between two steps left the record of its last completed step
+    R_LastRecord |-> (lastRec.ok /\ ev.clean) =>
+                        /\ rec.ok /\ rec.cstep = lastRec.cstep /\ rec.trajnum = lastRec.trajnum
+                        /\ rec.active = lastRec.active /\ rec.locked = lastRec.locked /\ rec.frac = lastRec.frac,
+    R_RowsOnce  |-> \A a, b \in 1..Len(ev.rows_on_disk) : a # b => ev.rows_on_disk[a] # ev.rows_on_disk[b],
+    R_RowsNotLive |-> \A a \in 1..Len(ev.rows_on_disk) : \A e \in Ens : st.slot[e+1] # ev.rows_on_disk[a],
+    R_Continues |-> rec.ok => st.cstep = rec.cstep ]
 
 ---------------------------------------------------------------------------
 Failed(rec) == {n \in DOMAIN rec : ~rec[n]}
@@ -337,13 +350,15 @@ StepRestart(ev) ==
   /\ jobsM' = [p \in Pins |-> NoJobM]
   /\ accF' = [p \in Live(ev.st) |-> IF HasKey(ev.frac, p) THEN Lookup(ev.frac, p) ELSE ZeroR]
   /\ wOf' = RowsOfState(ev.st)
-  /\ pending' = IF lastRec.ok THEN lastRec.locked ELSE <<>>
+  /\ pending' = IF ev.rec.ok THEN ev.rec.locked ELSE <<>>
+  /\ lastRec' = ev.rec
+  /\ rowsPn' = rowsPn \cup SeqSet(ev.rows_on_disk)
   /\ seg' = <<ev.st.cstep, 0, 0, seg[4]>>
   \* jobs drawn after the last completed step died unrecorded: their streams are forgotten
   /\ fpSig' = [f \in DOMAIN fpSig \ fpSince |-> fpSig[f]]
   /\ fpSince' = {}
   /\ tr' = [tr EXCEPT !.straight = FALSE]
-  /\ UNCHANGED <<rowsPn, lastRec, ordTab, fpSeed>>
+  /\ UNCHANGED <<ordTab, fpSeed>>
 
 TNext == /\ l <= Len(Tr)
          /\ l' = l + 1
